@@ -113,6 +113,7 @@ package bt
 //@ func bt.NewTx
 //@   fresh result
 //@   ensures[newtx_nonnil] (not (nil? result))
+//@   ensures[newtx_empty] (and (= (len (. result Inputs)) 0) (= (len (. result Outputs)) 0))
 
 //@ func bt.(*Tx).InputCount
 //@   pure
@@ -234,6 +235,7 @@ package bt
 //@   ensures[C10.change_output_appended] (=> (and (= err nil) r1 (not (nil? output)) (. output newOutput)) (and (= (len (. tx Outputs)) (+ (old (len (. tx Outputs))) 1)) (= (. (at (. tx Outputs) (old (len (. tx Outputs)))) Satoshis) r0) (= (. (at (. tx Outputs) (old (len (. tx Outputs)))) LockingScript) (. output lockingScript))))
 
 //@ func bt.(*Tx).Change
+//@   ensures[C10.change_existing_untouched] (=> (= err nil) (and (>= (len (. tx Outputs)) (old (len (. tx Outputs)))) (forall ((k Int)) (=> (and (<= 0 k) (< k (old (len (. tx Outputs))))) (= (at (. tx Outputs) k) (old (at (. tx Outputs) k)))))))
 //@   requires (spec.inputs_nonnil tx) (spec.outputs_nonnil tx)
 //@   requires (< (spec.sum_in tx) 18446744073709551616) (< (spec.sum_out tx) 18446744073709551616) (<= 0 (spec.sum_in tx)) (<= 0 (spec.sum_out tx))
 //@   requires (=> (not (nil? f)) (spec.wf_quote f))
